@@ -199,7 +199,7 @@ func genTemplateEquality(repo string, out *strings.Builder) {
 func genMutexRegions(p *pkgFiles, out *strings.Builder) {
 	f := p.files["filter_gen.go"]
 	type row struct {
-		name                       string
+		name                        string
 		writesOutside, readsOutside int
 	}
 	var rows []row
